@@ -237,8 +237,12 @@ def expand(call_stmt, call, fn, recv, suffix, caller_names):
         # the helper's own locals keep their names unless they would clobber
         # something of the caller that is still needed: after a tail call
         # only the names passed in matter
+        # a helper local that the call statement assigns under the same name
+        # (`a, b = h(x)` with `return a, b`) simply becomes the caller's
+        keep = {n.id for t in getattr(call_stmt, 'targets', [])
+                for n in ast.walk(t) if isinstance(n, ast.Name)}
         clash = v in arg_names if tail else (
-            caller_names is None or v in caller_names)
+            (caller_names is None or v in caller_names) and v not in keep)
         if clash:
             names[v] = '%s__%s' % (v, suffix)
     body = [_Rename(names, exprs).visit(st) for st in body]
